@@ -45,7 +45,7 @@ type wrec struct {
 }
 
 type Verifier struct {
-	deferredGU []deferredGhost
+	deferredGU   []deferredGhost
 	P            *Program
 	C            *Contracts
 	D            *Decls
